@@ -585,3 +585,91 @@ Proof.
   unfold step. rewrite C, R, G, Dn. eexists. eexists. split; [reflexivity|].
   cbn. split; [eapply nth_error_upd_same; eauto|]. reflexivity.
 Qed.
+
+(* ---- 6. cancellation: whose context matters, and what the other callers of the group get ---- *)
+
+(* creator-cancel: a group that ended Cancelled (its CREATOR's context was cancelled before the ctx.Err() test)
+   never calls Many, and every member that returns - the creator and every caller that joined on a live context
+   alike - gets the context error; a group that ran never hands out the context error, whatever was cancelled
+   afterwards; and a cancelled (or run) group is never joinable: the pending map only holds groups whose creator
+   has not unpublished yet *)
+Lemma cancel_outcomes_lemma : forall mss tr s gi g,
+  run (init mss) tr = Some s -> nth_error (groups s) gi = Some g ->
+  (g_phase g = Cancelled ->
+     g_ctxc g = true /\ runs_of gi tr = 0 /\ g_many g = None /\
+     forall ci cl r, nth_error (callers s) ci = Some cl -> c_gid cl = gi -> c_ret cl = Some r -> r = RErr ECtx) /\
+  (g_phase g = Ran ->
+     forall ci cl r, nth_error (callers s) ci = Some cl -> c_gid cl = gi -> c_ret cl = Some r -> r <> RErr ECtx) /\
+  (forall f sh, lookup f sh (pending s) = Some gi -> g_phase g = Open \/ g_phase g = Woken).
+Proof.
+  intros mss tr s gi g H G. pose proof (inv_run _ _ _ H) as HI.
+  destruct (many_once_lemma _ _ _ gi H) as [M1 M2]. destruct (M2 g G) as [M3 _].
+  destruct (iD _ HI _ _ G) as [_ W].
+  split; [|split].
+  - intro P. rewrite P in W. destruct W as [W1 [W2 [W3 W4]]]. split; auto. split.
+    + destruct (runs_of gi tr) as [|[|k]] eqn:R; auto; [|lia]. destruct M3 as [M3 _]. specialize (M3 eq_refl). congruence.
+    + split; auto. intros ci cl r C Gi Rt. destruct (iE _ HI _ _ _ C Rt) as [g0 [G0 [_ ->]]].
+      rewrite Gi in G0. assert (g0 = g) by congruence. subst g0. unfold ret_of. rewrite W3. reflexivity.
+  - intro P. rewrite P in W. destruct W as [_ W]. intros ci cl r C Gi Rt.
+    destruct (iE _ HI _ _ _ C Rt) as [g0 [G0 [_ ->]]]. rewrite Gi in G0. assert (g0 = g) by congruence. subst g0.
+    unfold ret_of. destruct W as [[E [rs [Rs _]]]|[_ [e [E N]]]].
+    + rewrite E, Rs. destruct (nth_error rs (c_index cl)); discriminate.
+    + rewrite E. intro X. injection X as ->. congruence.
+  - intros f sh L. destruct (iC _ HI _ _ _ L) as [g0 [G0 [_ [P _]]]]. assert (g0 = g) by congruence. subst g0. exact P.
+Qed.
+
+(* joiner-cancel: the step of a caller that finds a published group leaves every group's cancellation flag and
+   phase as they are, whatever the state of the caller's own context: only the creator's context can cancel a group *)
+Lemma joiner_cannot_cancel_lemma : forall s f a sh c gi s',
+  lookup f sh (pending s) = Some gi -> step s (LJoin f a sh c) = Some s' ->
+  length (groups s') = length (groups s) /\
+  forall gj g', nth_error (groups s') gj = Some g' ->
+    exists g, nth_error (groups s) gj = Some g /\ g_ctxc g' = g_ctxc g /\ g_phase g' = g_phase g /\ g_done g' = g_done g.
+Proof.
+  intros s f a sh c gi s' L H. unfold step in H. rewrite L in H.
+  destruct (nth_error (groups s) gi) as [g|] eqn:G; [|discriminate]. injection H as <-. cbn [groups].
+  split; [apply length_upd|]. intros gj g' G'. destruct (Nat.eq_dec gi gj) as [<-|Q].
+  - rewrite (nth_error_upd_same _ _ _ _ _ G) in G'. injection G' as <-. exists g. cbn. auto.
+  - rewrite nth_error_upd_other in G' by auto. exists g'. auto.
+Qed.
+
+(* the flag is only ever set by the label that cancels that group's creator, or at creation on a context already cancelled *)
+Lemma ctxc_only_by_creator_lemma : forall s l s' gi g',
+  step s l = Some s' -> nth_error (groups s') gi = Some g' -> g_ctxc g' = true ->
+  (exists g, nth_error (groups s) gi = Some g /\ g_ctxc g = true) \/ l = LCtxCancel gi \/
+  (gi = length (groups s) /\ exists f a sh, l = LJoin f a sh true /\ lookup f sh (pending s) = None).
+Proof.
+  intros s l s' gi g' H G' C.
+  destruct l as [f a sh c|g|g c|g|g o|g|g|c0].
+  - unfold step in H. destruct (lookup f sh (pending s)) as [gj|] eqn:L.
+    + destruct (joiner_cannot_cancel_lemma s f a sh c gj s' L) as [_ J].
+      { unfold step. rewrite L. exact H. }
+      destruct (J _ _ G') as [g [G0 [E _]]]. left. exists g. split; auto. congruence.
+    + injection H as <-. cbn [groups] in G'. apply nth_error_app_last in G'. destruct G' as [[_ G']|[E ->]].
+      * left. eauto.
+      * cbn in C. subst c. right. right. split; auto. exists f, a, sh. auto.
+  - destruct (Nat.eq_dec g gi) as [->|Q]; [right; left; reflexivity|]. left.
+    unfold step in H. dmatch H. injection H as <-. cbn [groups set_group] in G'.
+    rewrite nth_error_upd_other in G' by auto. eauto.
+  - left. unfold step in H. dmatch H. injection H as <-. cbn [groups set_group] in G'.
+    destruct (Nat.eq_dec g gi) as [->|Q].
+    + erewrite nth_error_upd_same in G' by eauto. injection G' as <-. cbn in C. eauto.
+    + rewrite nth_error_upd_other in G' by auto. eauto.
+  - left. unfold step in H. dmatch H; injection H as <-; cbn [groups] in G';
+      (destruct (Nat.eq_dec g gi) as [->|Q];
+       [ erewrite nth_error_upd_same in G' by eauto; injection G' as <-; cbn in C; eauto
+       | rewrite nth_error_upd_other in G' by auto; eauto ]).
+  - left. unfold step in H. dmatch H; injection H as <-; cbn [groups set_group] in G';
+      (destruct (Nat.eq_dec g gi) as [->|Q];
+       [ erewrite nth_error_upd_same in G' by eauto; injection G' as <-; cbn in C; eauto
+       | rewrite nth_error_upd_other in G' by auto; eauto ]).
+  - left. unfold step in H. dmatch H; injection H as <-; cbn [groups set_group] in G';
+      (destruct (Nat.eq_dec g gi) as [->|Q];
+       [ erewrite nth_error_upd_same in G' by eauto; injection G' as <-; cbn in C; eauto
+       | rewrite nth_error_upd_other in G' by auto; eauto ]).
+  - left. unfold step in H. dmatch H; injection H as <-; cbn [groups set_group] in G';
+      (destruct (Nat.eq_dec g gi) as [->|Q];
+       [ erewrite nth_error_upd_same in G' by eauto; injection G' as <-; cbn in C; eauto
+       | rewrite nth_error_upd_other in G' by auto; eauto ]).
+  - left. unfold step in H. dmatch H. injection H as <-. cbn [groups] in G'. eauto.
+Qed.
